@@ -17,6 +17,7 @@ def run(prog, rep, tier):
     apply(rep, "R2", "con/des mirror and slot type agreement", r_life.r2(prog), 100)
     apply(rep, "R2d", "owned sub-chains are state-constructed", r_life.r2d(prog), 12)
     apply(rep, "L", "layout unions (L1-L3)", r_life.l123(prog), 4)
+    apply(rep, "L6", "value classes own every op-graph object they keep (no reference / raw pointer members into a query)", r_life.l6(prog), 10)
     apply(rep, "L5", "a state guard is declared after (destroyed before) the state area and the owner of the ops it tears down", r_life.l5(prog), 3)
     s1 = r_scope.s1(prog)
     apply(rep, "S1", "every sub-expression context opens a scope", (s1[0], s1[1]), 10)
